@@ -552,3 +552,84 @@ func TestC08Exhaustive(t *testing.T) {
 	})
 	col.Exhaustive = true
 }
+
+// ---- wide directories ---------------------------------------------------------------------------------------------------
+
+// c08Wide: a root with W children, every fifth of which has a child of its own; the directory state is the exact tree, the
+// tree minus one grandchild, or the tree plus one extra entry below a child.
+type c08Wide struct {
+	W       int    `json:"w"`
+	Variant string `json:"variant"` // exact | drop | extra
+	At      int    `json:"at"`      // which child (index) the dropped grandchild / the extra entry belongs to
+	Strict  bool   `json:"strict"`
+	Massive bool   `json:"massive,omitempty"`
+	Entry   string `json:"entry"`
+}
+
+func init() { registerReplay("c08w", c08WideCheck) }
+
+func c08WideCheck(w c08Wide) string {
+	r := &model.T{Name: "wide"}
+	dropIdx, idx := -1, 0
+	for i := 0; i < w.W; i++ {
+		idx++
+		k := &model.T{Name: fmt.Sprintf("k%04d", i)}
+		if i%5 == 0 || i == w.At {
+			k.Kids = []*model.T{{Name: "g"}}
+			idx++
+			if i == w.At {
+				dropIdx = idx
+			}
+		}
+		r.Kids = append(r.Kids, k)
+	}
+	c := c08Case{Forest: model.Forest{r}, Entry: w.Entry, Strict: w.Strict, Massive: w.Massive}
+	switch w.Variant {
+	case "drop":
+		c.Drop = []int{dropIdx}
+	case "extra":
+		c.Extra = []ops.FSEntry{{Path: fmt.Sprintf("wide/k%04d/~x", w.At), Kind: "d"}}
+	}
+	msg := c08Check(c)
+	if msg == "" {
+		return ""
+	}
+	if i := strings.Index(msg, "\n"); i >= 0 {
+		msg = msg[i+1:]
+	}
+	return fmt.Sprintf("a root with %d children (every fifth and child %d with a child of its own), state: %s (at child %d), strict=%v massive=%v entry=%s\n%s", w.W, w.At, w.Variant, w.At, w.Strict, w.Massive, w.Entry, truncate(msg, 1500))
+}
+
+func TestC08Wide(t *testing.T) {
+	col := coll("C08", "wide")
+	ws := []int{1023, 1030}
+	if thorough() {
+		ws = []int{255, 256, 1023, 1024, 1025, 1030, 2047, 2050, 4100}
+	}
+	col.Rule = fmt.Sprintf("a root directory with W entries, W in %v, every fifth of which has a child (so have the first, a middle and the last entry) x state {exact, one grandchild missing, one extra entry below a child} x position {first, middle, last child} x strict x {md, root} x rotating simple/massive; oracle as in the other parts", ws)
+	n := 0
+	for _, w := range ws {
+		for _, variant := range []string{"exact", "drop", "extra"} {
+			for _, at := range []int{0, w / 2, w - 1} {
+				for _, strict := range []bool{false, true} {
+					for _, entry := range []string{"md", "root"} {
+						n++
+						if n%nshards != shard {
+							continue
+						}
+						if !thorough() && hash64(fmt.Sprint(w, variant, at, strict, entry))%2 != 0 {
+							continue
+						}
+						c := c08Wide{W: w, Variant: variant, At: at, Strict: strict, Massive: n%3 == 0, Entry: entry}
+						col.eval(true, hash64(fmt.Sprint(c)), "state:"+variant, fmt.Sprintf("strict:%v", strict), fmt.Sprintf("w>=1024:%v", w >= 1024))
+						col.sample(func() any { return c })
+						if msg := c08WideCheck(c); msg != "" {
+							violation(t, "C08", "c08w", c, msg)
+						}
+					}
+				}
+			}
+		}
+	}
+	col.Exhaustive = true
+}
